@@ -258,6 +258,13 @@ def family(tier: str) -> list:
             out.append({"<start>": Seq((NT("<s>"), Opt(M3))), "<s>": e})
         if i % 7 == 0:
             out.append({"<start>": Alt((Seq((NT("<s>"), M2)), M1)), "<s>": e})
+    # one non-message ("state") symbol referenced from two positions that are on the exploration frontier of the same history
+    S = NT("<s>")
+    for e in [Seq((M2, M3)), M2, Seq((M3, M2)), Alt((M2, Seq((M3, M2)))), Plus(M2)]:
+        out.append({"<start>": Seq((M1, Opt(Seq((S, M1))), S, M3)), "<s>": e})
+        out.append({"<start>": Seq((M1, Star(Seq((S, M1))), S, M3)), "<s>": e})
+        out.append({"<start>": Seq((M1, Alt((Seq((S, M1)), M3)), S, M1)), "<s>": e})
+        out.append({"<start>": Seq((Opt(S), S, M1)), "<s>": e})
     out.append({"<start>": Seq((M1, Star(Seq((M2, M3))), M2))})
     out.append({"<start>": Seq((NT("<x>"), NT("<y>"))), "<x>": Alt((M1, Seq((M1, M2)))), "<y>": Alt((M3, Seq((M2, M3))))})
     out.append({"<start>": Seq((M4, M1, Opt(M4), M2))})
@@ -317,6 +324,12 @@ def work(item):
         spec = build(fan)
         if parties is not None:
             from fandango.language.parse.slice_parties import slice_parties
+            if len(item) > 3 and item[3]:
+                # a forecaster has already worked on this grammar object before it is sliced (in place): nothing it built may survive
+                try:
+                    PacketForecaster(spec.grammar).predict(DerivationTree(NonTerminal("<start>")))
+                except Exception:
+                    pass
             slice_parties(spec.grammar, set(parties), ignore_receivers=True)
     except Exception as e:
         res["spec_error"] = f"{type(e).__name__}: {e}"[:200]
@@ -345,6 +358,8 @@ def work(item):
             base = {"grammar": fan[len(PRELUDE):], "history": hist}
             if parties is not None:
                 base["sliced_to"] = sorted(parties)
+                if len(item) > 3 and item[3]:
+                    base["forecast_before_slicing"] = True
             try:
                 with time_limit(20), AdmissionCounter(200_000):
                     pred = forecaster.predict(tree)
@@ -434,6 +449,9 @@ def run(ctx: Ctx) -> None:
         for parties in (("A",), ("B",)):
             items.append((r, 4 if ctx.quick else 5, parties))
             n_sliced += 1
+            if n_sliced % 3 == 0:
+                items.append((r, 3, parties, True))   # the same, after a forecaster has already been used on the unsliced grammar object
+                n_sliced += 1
     items = rotate(items, ctx.seed)
     ctx.log(f"{len(items)} protocol grammars")
     results = pmap_tagged(work, items, chunk=2)
